@@ -30,6 +30,8 @@ def gen_seq(rng):
                  int_dist=rng.choice([0.007, 0.01]), int_length=rng.choice([0.0, 0.5, -0.25]), arm_length=rng.choice([0.0, 0.75, -1.0]),
                  dz_bridge=rng.choice([0.007, -0.01]), cmd_rate_max=rng.choice([40, 100, 250]), speed_closed=rng.choice([5, 10.0]),
                  speed_pos=rng.choice([0.5, 3.0]), samplesize=(25, 10))
+    if rng.random() < 0.25:
+        param['warp_flag'] = True      # straight segments are subdivided (the compensation itself is the compiler's, C17)
     calls = [('start', [rng.choice([-2.0, 0.0, 0.125]), rng.choice([0.0, 0.25, -1.5]), rng.choice([0.035, 0.0, -0.1])])]
     for _ in range(rng.randint(1, 6)):
         if rng.random() < 0.15:
@@ -138,7 +140,8 @@ def seg_lit(param, c):
     def aa(v):
         return cq(frac(param['arm_length'] if v is None else v))
     if k == 'linear':
-        return '(GLinear (%s, %s, %s) %s %s %s)' % (*(oq(v) for v in c[1]), cb(c[2].lower() == 'abs'), cb(c[3]), ff(c[4]))
+        return '(%s (%s, %s, %s) %s %s %s)' % ('GLinearW' if param.get('warp_flag') else 'GLinear', *(oq(v) for v in c[1]),
+                                               cb(c[2].lower() == 'abs'), cb(c[3]), ff(c[4]))
     if k == 'arc_bend':
         return '(GArc %s %s %s %s)' % (cq(frac(c[1])), rr(c[2]), cb(c[3]), ff(c[4]))
     if k == 'arc_coupler':
